@@ -14,7 +14,7 @@ def _redirect_dial(src):
 
 SPEC = dict(
     id="C25",
-    technique="Lean 4 invariant proofs (generic induction principle StepOK through pullOnce / peer loop / retry loop / call history) over an executable model of processEntry + pullOnce + FetchClient.Fetch + LocalBackend{StatFile,ReadToAt,WriteReader,AppendReader,Delete}, parameterised by four code facts regenerated from the source (StatFile .part fallback, Delete removes .part, presence check needs the final file, WriteReader renames only after the verified-EOF signal); differential correspondence of the real Puller + real FetchClient + real LocalBackend against the model after every attempt",
+    technique="Lean 4 invariant proofs (generic induction principle StepOK through pullOnce / peer loop / retry loop / call history) over an executable model of processEntry + pullOnce + FetchClient.Fetch + LocalBackend{StatFile,ReadToAt,WriteReader,AppendReader,Delete}, parameterised by five code facts regenerated from the source (resume boundary `partial >= SizeBytes` in tryResumeFromPartial, StatFile .part fallback, Delete removes .part, presence check needs the final file, WriteReader renames only after the verified-EOF signal); differential correspondence of the real Puller + real FetchClient + real LocalBackend against the model after every attempt",
     level_text=(
         "Lean 4, for ALL fault histories (any number of processEntry calls, any number of attempts, any number of candidate peers per attempt, "
         "every outcome of the alphabet dial/err-ack/not-on-peer/bad-offset/wrong-size/wrong-hash/truncate@i/corrupt@i/ok, any file bytes, abstract digest H): "
@@ -55,6 +55,8 @@ def extra_stage(ctx):
         regime = "repaired (Delete removes .part): C25_counts / C25_converges apply to the current source for non-empty files and replicas without a full-size staging file at the start"
     else:
         regime = "round-1 facts: C25_counts / C25_converges are refuted by the witnesses; only the _partial theorems and C25_final_correct apply to the current source"
+    if f.get("resume_full_part", False):
+        regime += "; STEP-ORDER OBLIGATION BROKEN: tryResumeFromPartial resumes from a local file of full manifest size (boundary `>` instead of `>=`) — C25_resume_boundary / C25_order_ok fail (C25_resume_boundary_witness: fault-free retries are burnt on bad_offset)"
     if not f.get("promote_after_verdict", True):
         regime += "; STEP-ORDER OBLIGATION BROKEN: WriteReader no longer copies the caller's un-limited reader (copy source: %s) — C25_promote_after_verdict fails, every C25_final_correct* theorem loses its hypothesis" % f.get("write_reader_copy_source")
     ctx["notes"]["regime"] = regime
